@@ -111,6 +111,7 @@ type ServerConfig struct {
 	Lifetime       time.Duration // root lifetime (0 = default)
 	ExtraOpts      []nodeenrollment.Option
 	OptsSpare      int // spare capacity of the options slice handed to the listener (C15)
+	Inner          nodeenrollment.Storage // server storage back end (nil: in-memory)
 	NoAcceptLoop   bool // the caller (e.g. a SplitListener) accepts from the intercepting listener itself
 	Unix           string
 }
@@ -139,7 +140,7 @@ func selfSigned(pub ed25519.PublicKey, priv ed25519.PrivateKey, ski []byte) ([]b
 }
 
 func NewServer(cfg ServerConfig) (*Server, error) {
-	w, err := world.New(world.Config{Seed: cfg.Seed, StorageWrapper: cfg.StorageWrapper, NodeIdLoader: cfg.NodeIdLoader})
+	w, err := world.New(world.Config{Seed: cfg.Seed, StorageWrapper: cfg.StorageWrapper, NodeIdLoader: cfg.NodeIdLoader, Inner: cfg.Inner})
 	if err != nil {
 		return nil, err
 	}
